@@ -483,3 +483,12 @@ CHECKS["C09"]["layers"].append(L("TestVF_C09_History", 300, 4000))
 CHECKS["C09"]["rule"] += PROBE_HIST_RULE % ("C09", "every target of every service in place gets at least one probe less than the interval of the options in force allows for, on the health path in force.")
 CHECKS["C17"]["layers"].append(L("TestVF_C17_History", 300, 4000))
 CHECKS["C17"]["rule"] += PROBE_HIST_RULE % ("C17", "no target gets more than the services in place send it (one more than the interval allows per stream) - in particular none for the targets of removed, replaced or refused deployments and of the proxy that ran before a restart.")
+
+MATRIX_HIST_RULE = (" Matrix-history layer (TestVF_%s_History): the history generator of the other history layers (1-14 commands, full option set, a sixth refused, restarts from the "
+                    "state file anywhere), then the request matrix of 9 hosts x 10 paths x both schemes through the server's own handler chain, every answer compared with the model: %s "
+                    "Non-trivial there = at least one such cell with a service deployed.")
+for _id, _what in (("C04", "the cells with the scheme the owning service lets through - which service (or nobody: 404) answers - and `list`."),
+                   ("C08", "the cells of stopped services - 503 with the operator's message on the page in force (custom or built-in), 200 from the proxy on the health-check path."),
+                   ("C16", "the cells with the other scheme - 301 when TLS and redirect are in force for the owning service (its own or its host's root service's), 503 for TLS to a service without it.")):
+    CHECKS[_id]["layers"].append(L("TestVF_%s_History" % _id, 300, 4000))
+    CHECKS[_id]["rule"] += MATRIX_HIST_RULE % (_id, _what)
